@@ -360,7 +360,8 @@ Inductive call :=
 | ValidateClaim (cl : claim) (topic : Z) (i d : addr)
 | RecoveryTarget (old : addr)
 (* ledger *)
-| Advance (dt : Z).
+| Advance (dt : Z)                      (* timestamp += dt *)
+| Ledger (n dt : Z).                    (* n ledgers close (sequence += n), timestamp += dt: every entry persists *)
 
 Inductive oval :=
 | VUnit
@@ -429,6 +430,9 @@ Definition step (c : cfg) (w : world) (k : call) : world * outcome :=
   | ValidateClaim cl topic i d => pure w (Ok (VBool (validate_claim c w cl topic i d)))
   | RecoveryTarget old => pure w (do o <- recovery_target w old; Ok (VOptAddr o))
   | Advance dt =>
+      ({| w_now := w_now w + dt; w_ctis := w_ctis w; w_irss := w_irss w; w_idents := w_idents w;
+          w_issuers := w_issuers w; w_vcti := w_vcti w; w_virs := w_virs w |}, Ok VUnit)
+  | Ledger _ dt =>
       ({| w_now := w_now w + dt; w_ctis := w_ctis w; w_irss := w_irss w; w_idents := w_idents w;
           w_issuers := w_issuers w; w_vcti := w_vcti w; w_virs := w_virs w |}, Ok VUnit)
   end.
